@@ -11,6 +11,7 @@ import (
 	"net/http"
 	"net/http/httptrace"
 	"net/textproto"
+	"os"
 	"strconv"
 	"strings"
 	"sync"
@@ -1207,7 +1208,14 @@ func abortVsServer(c RawCase, rec recorder) *vf.Verdict {
 			f.mu.Lock()
 			seen.invoked, seen.ctx = true, r.Context()
 			f.mu.Unlock()
-			defer func() { f.mu.Lock(); seen.returned = true; f.mu.Unlock() }()
+			defer func() {
+				f.mu.Lock()
+				seen.returned = true
+				f.mu.Unlock()
+				if os.Getenv("VERIF_C18_DEBUG") != "" {
+					fmt.Fprintf(os.Stderr, "DEBUG handler returned at %v wrote=%d werr=%v ctx=%v\n", f.w.Router.Now(), seen.wrote, seen.writeErr, context.Cause(r.Context()))
+				}
+			}()
 			switch c.DeclT {
 			case "valid":
 				w.Header().Set("Trailer", "X-T")
@@ -1291,6 +1299,9 @@ func abortVsServer(c RawCase, rec recorder) *vf.Verdict {
 			rc.conn.CloseWithError(quic.ApplicationErrorCode(c.Code), "raw peer leaves")
 		case "blackhole":
 			f.w.Router.Close()
+			if os.Getenv("VERIF_C18_DEBUG") != "" {
+				fmt.Fprintf(os.Stderr, "DEBUG blackhole at %v\n", f.w.Router.Now())
+			}
 		case "fin":
 			str.Close()
 		}
@@ -1347,7 +1358,12 @@ func abortVsServer(c RawCase, rec recorder) *vf.Verdict {
 	// let the in-tree side react
 	settle := time.Second + 40*rtt
 	if c.Action == "blackhole" {
-		settle = rawIdle + 1500*time.Millisecond
+		// RFC 9000 10.1: the idle timer also restarts when an ack-eliciting packet is sent for the first time since
+		// the last receipt, so the in-tree side may legitimately take up to twice the idle timeout to give up
+		settle = 2*rawIdle + 2*time.Second
+		if os.Getenv("VERIF_C18_DEBUG") == "2" {
+			settle = 30 * time.Second
+		}
 	}
 	var m *message
 	select {
@@ -1584,6 +1600,18 @@ func abortVsClient(c RawCase, rec recorder) *vf.Verdict {
 	}
 	if c.Action != "blackhole" {
 		if err := followUpClient(ctx, f); err != nil {
+			if os.Getenv("VERIF_C18_DEBUG") != "" {
+				tr := f.w.Router.Trace(100000)
+				for _, r := range tr[max(0, len(tr)-60):] {
+					fmt.Fprintf(os.Stderr, "DEBUG %v %s len=%d %v %s\n", r.T, r.Dir, r.Len, r.Class, r.Fate)
+				}
+				f.rs.mu.Lock()
+				fmt.Fprintf(os.Stderr, "DEBUG raw server conns: %d, now %v\n", len(f.rs.conns), f.w.Router.Now())
+				for _, sc := range f.rs.conns {
+					fmt.Fprintf(os.Stderr, "DEBUG   conn %d: %v\n", sc.idx, sc.closeErr())
+				}
+				f.rs.mu.Unlock()
+			}
 			return vf.Bad("C18/raw/client-unusable", "%s: a request through the same Transport afterwards failed: %v", desc, err)
 		}
 	}
